@@ -29,6 +29,15 @@
 // Stages T/Y, I/J, P/Q: TetrisLegalizer, IncrNetModel and DetailedPlacement driven directly, in-domain (batches,
 //   same values, never a fault) and beyond the domain (one child per case, the checked model predicts the kills).
 // Stage U: Transportation1d::assign on single lines of bins (unit supplies, full lines), tied to Model/Transp1d.
+// Stages V/W: Transportation1d pb(u, v, s, d); pb.balanceDemand(); pb.assign(); with the positions scaled as improveX/YTransport
+//   scale them (1e8 / width: up to 2^56), tied to the checked `long long` twin Model/Transp1dChecked: V in-domain (equal, never a
+//   fault), W magnitudes up to 2^62.9 (one child per case; the model predicts the UBSan kills).  Generators: harness/c07_t1d.hpp.
+// Stages G/H: the general transportation of DensityLegalizer::reoptimize.  G (in-domain): bins within +-2^22, cell targets up
+//   to 2^29, the six cost models with the quadratic penalty; the `float` costs are read from the real
+//   DensityLegalizer::allDistances(), then TransportationProblem(capacities, demands, costs).increaseCapacity().solve()
+//   .toAssignment(); the checked Lean twin (Model/TranspCostsChecked + TranspRunChecked) must print the same floats, the
+//   same fixed-point costs and the same assignment and never fault.  H (beyond the domain, one child per case, int-cost
+//   constructor): quantities up to 2^62 and signed costs up to INT_MAX/3; the model must predict exactly the UBSan kills.
 //
 // The work is spread over J worker processes (cases k = w mod J); workers only write
 // record files, the parent aggregates them in case order, so the result does not
@@ -40,6 +49,7 @@
 #include <climits>
 #include <cstring>
 #include <dirent.h>
+#include <memory>
 
 #include "common/circuit.hpp"
 #include "place_detailed/abacus_legalizer.hpp"
@@ -47,8 +57,14 @@
 #include "place_detailed/incr_net_model.hpp"
 #include "place_detailed/row_legalizer.hpp"
 #include "place_detailed/tetris_legalizer.hpp"
+#include "place_global/transportation.hpp"
 #include "place_global/transportation_1d.hpp"
+#include "c07_t1d.hpp"
 #include "utils/helpers.hpp"
+// stage G reads the real `float` costs through DensityLegalizer::allDistances(), a private member
+#define private public
+#include "place_global/density_legalizer.hpp"
+#undef private
 
 using namespace coloquinte;
 static const long long M22 = 1ll << 22;
@@ -1349,19 +1365,283 @@ static void t1dImpl(const T1dInst &t, std::ostream &os) {
   }
 }
 
+
+// ------------------------------------------------------------------ stages G / H : the transportation of DensityLegalizer::reoptimize
+static uint32_t f32bits(float f) { uint32_t b; memcpy(&b, &f, 4); return b; }
+// canonical text of a finite float: "m e" with value m * 2^e, m odd (or "0 0")
+static std::string dyadic(float f) {
+  if (f == 0.0f) return "0 0";
+  int e = 0;
+  double fr = std::frexp((double)f, &e);
+  long long m = (long long)std::ldexp(fr, 24);
+  e -= 24;
+  while (m % 2 == 0) { m /= 2; ++e; }
+  return std::to_string(m) + " " + std::to_string(e);
+}
+struct GtInst {
+  int model = 0;
+  float qf = 0.0f;
+  std::vector<long long> caps, dems;
+  std::vector<Rectangle> bins;  // every bin is the single bin of its own grid: its centre is what binX / binY return
+  std::vector<float> cx, cy;    // cell targets
+};
+static float genTarget(vh::Rng &g, long long lo, long long hi) {
+  int k = g.range(0, 9);
+  if (k < 5) return (float)g.range(lo, hi) + (float)g.range(0, 255) / 256.0f;           // inside the bins' span
+  if (k < 8) return (float)g.range(-(1ll << 23), 1ll << 23) * (float)g.range(0, 16) / 16.0f;
+  float big = (float)std::ldexp(1.0 + (double)g.range(0, (1 << 23) - 1) / (double)(1 << 23), (int)g.range(20, 28));  // up to 2^29
+  return g.chance(1, 2) ? big : -big;
+}
+static GtInst genGt(vh::Rng &g) {
+  GtInst t;
+  t.model = g.range(0, 5);
+  // quadraticPenaltyFactor = quadraticPenalty / (width + height), quadraticPenalty in [0, 1]; 0 for the squared models
+  if (t.model <= 2 && g.chance(2, 3)) t.qf = (float)((double)g.range(0, 1 << 20) / (double)(1 << 20) / (double)g.range(2, 1 << g.range(1, 23)));
+  bool large = g.chance(1, 12);
+  int nb = large ? g.range(7, 16) : g.range(2, 6), nc = large ? g.range(8, 24) : g.range(1, 9);
+  long long R = 1ll << 22;
+  long long x0 = g.chance(1, 3) ? -R : (g.chance(1, 2) ? g.range(-R, R - 64) : g.range(-100, 100));
+  long long y0 = g.chance(1, 3) ? -R : (g.chance(1, 2) ? g.range(-R, R - 64) : g.range(-100, 100));
+  long long span = g.chance(1, 3) ? g.range(1, 40) : (g.chance(1, 2) ? g.range(1, 2000) : g.range(1, (2 * R) / 16));
+  long long lox = x0, hix = x0, loy = y0, hiy = y0;
+  for (int b = 0; b < nb; ++b) {
+    long long ax = std::min(R - 1, x0 + g.range(0, 15) * span), ay = std::min(R - 1, y0 + g.range(0, 15) * span);
+    long long bx = std::min(R, ax + std::max(1ll, g.range(1, span))), by = std::min(R, ay + std::max(1ll, g.range(1, span)));
+    t.bins.emplace_back((int)ax, (int)bx, (int)ay, (int)by);
+    lox = std::min(lox, ax); hix = std::max(hix, bx); loy = std::min(loy, ay); hiy = std::max(hiy, by);
+  }
+  for (int c = 0; c < nc; ++c) { t.cx.push_back(genTarget(g, lox, hix)); t.cy.push_back(genTarget(g, loy, hiy)); }
+  // quantities: small areas, or large ones that are multiples of one unit (the solver augments unit by unit otherwise)
+  int qm = g.range(0, 5);
+  long long unit = qm == 4 ? (1ll << g.range(10, 20)) : 1;
+  long long top = qm == 0 ? 1 : (qm == 1 ? 4 : (qm == 5 ? 1000 : 60));
+  long long total = 0;
+  for (int c = 0; c < nc; ++c) { long long a = g.range(1, top) * unit; t.dems.push_back(a); total += a; }
+  int cm = g.range(0, 3);  // 0 exact fit, 1 slack, 2 overfull (increaseCapacity), 3 random
+  long long left = cm == 2 ? std::max(nb * unit, total / 2) : (cm == 1 ? total + g.range(1, top) * unit * nb : total);
+  for (int b = 0; b < nb; ++b) {
+    long long c = cm == 3 ? g.range(1, top * 2) * unit : (b + 1 == nb ? left : std::max(1ll, g.range(1, std::max(1ll, left / unit / (nb - b) * 2)) * unit));
+    c = std::max(unit, std::min(c, std::max(unit, left - (nb - 1 - b) * unit)));
+    if (cm == 3) c = std::max(1ll, c);
+    t.caps.push_back(c);
+    left -= c;
+  }
+  if (g.chance(1, 40)) t.dems[g.range(0, nc - 1)] = 0;  // a cell without area: check() throws
+  return t;
+}
+// runs one instance on the real code; writes the driver's op lines and the answers
+static void gtSession(const GtInst &t, std::ostream &ops, std::ostream &impl) {
+  size_t nb = t.bins.size(), nc = t.cx.size();
+  std::vector<float> bx(nb), by(nb);
+  std::vector<std::vector<float>> costs(nb);
+  DensityLegalizer::Parameters prm;
+  prm.costModel = (LegalizationModel)t.model;
+  prm.quadraticPenaltyFactor = t.qf;
+  for (size_t b = 0; b < nb; ++b) {
+    DensityGrid grid(1 << 30, t.bins[b]);
+    DensityLegalizer leg(grid, std::vector<int>(nc, 1), prm);
+    leg.updateCellTargetX(t.cx);
+    leg.updateCellTargetY(t.cy);
+    bx[b] = leg.simpleCoordX()[0];
+    by[b] = leg.simpleCoordY()[0];
+    costs[b] = leg.allDistances();
+  }
+  // a few single distances, compared bit for bit
+  for (size_t k = 0; k < std::min<size_t>(4, nb * nc); ++k) {
+    size_t b = (k * 7) % nb, c = (k * 5 + 1) % nc;
+    ops << "gd " << t.model << " " << f32bits(t.qf) << " " << f32bits(t.cx[c]) << " " << f32bits(t.cy[c]) << " " << f32bits(bx[b]) << " "
+        << f32bits(by[b]) << "\n";
+    impl << "gd " << dyadic(costs[b][c]) << "\n";
+  }
+  ops << "gt " << t.model << " " << f32bits(t.qf) << " " << nb << " " << nc;
+  for (auto v : t.caps) ops << " " << v;
+  for (auto v : t.dems) ops << " " << v;
+  for (size_t b = 0; b < nb; ++b) ops << " " << f32bits(bx[b]) << " " << f32bits(by[b]);
+  for (size_t c = 0; c < nc; ++c) ops << " " << f32bits(t.cx[c]) << " " << f32bits(t.cy[c]);
+  ops << "\n";
+  try {
+    TransportationProblem solver(t.caps, t.dems, costs);
+    solver.increaseCapacity();
+    solver.solve();
+    std::vector<int> a = solver.toAssignment();
+    impl << "gtcost";
+    for (size_t b = 0; b < nb; ++b) for (size_t c = 0; c < nc; ++c) impl << " " << solver.cost(b, c);
+    impl << "\ngt";
+    for (int k : a) impl << " " << k;
+    impl << "\n";
+  } catch (const std::runtime_error &) {
+    impl << "gt throw:runtime_error\n";
+  }
+}
+static std::string gtText(const GtInst &t) {
+  std::ostringstream os;
+  os << "gtinst " << t.model << " " << f32bits(t.qf) << " " << t.bins.size() << " " << t.cx.size();
+  for (auto v : t.caps) os << " " << v;
+  for (auto v : t.dems) os << " " << v;
+  for (auto &r : t.bins) os << " " << r.minX << " " << r.maxX << " " << r.minY << " " << r.maxY;
+  for (size_t c = 0; c < t.cx.size(); ++c) os << " " << f32bits(t.cx[c]) << " " << f32bits(t.cy[c]);
+  os << "\n";
+  return os.str();
+}
+static bool parseGt(std::istream &is, GtInst &t) {
+  size_t nb = 0, nc = 0;
+  uint32_t q = 0;
+  if (!(is >> t.model >> q >> nb >> nc)) return false;
+  memcpy(&t.qf, &q, 4);
+  t.caps.resize(nb); t.dems.resize(nc);
+  for (auto &v : t.caps) is >> v;
+  for (auto &v : t.dems) is >> v;
+  for (size_t b = 0; b < nb; ++b) { int a, bb, c, d; is >> a >> bb >> c >> d; t.bins.emplace_back(a, bb, c, d); }
+  for (size_t c = 0; c < nc; ++c) { uint32_t x, y; is >> x >> y; float fx, fy; memcpy(&fx, &x, 4); memcpy(&fy, &y, 4); t.cx.push_back(fx); t.cy.push_back(fy); }
+  return (bool)is;
+}
+
+// stage H: the int-cost constructor beyond the domain.  Every family keeps 3*|cost| < INT_MAX (C13 proves that no assert of
+// the solver fails then, whatever the quantities), so the outcome is the same with and without NDEBUG:
+//   0 control (in-domain)   1 quantities up to 2^62 (multiples of one large unit)   2 signed costs up to INT_MAX/3
+//   3 both
+struct GiInst { std::vector<long long> caps, dems; std::vector<std::vector<int>> costs; int family = 0; };
+static GiInst genGi(vh::Rng &g) {
+  GiInst t;
+  t.family = g.range(0, 3);
+  int nb = g.range(1, 5), nc = g.range(1, 6);
+  bool bigQ = t.family == 1 || t.family == 3, signedC = t.family >= 2;
+  long long unit = bigQ ? (1ll << g.range(56, 61)) : 1;
+  long long top = bigQ ? g.range(1, 3) : g.range(1, 50);
+  long long mmax = (1ll << 62) / unit;  // every single quantity fits a long long; their sums need not
+  for (int c = 0; c < nc; ++c) t.dems.push_back(g.range(1, std::min(top, mmax)) * unit);
+  for (int b = 0; b < nb; ++b) t.caps.push_back(g.range(1, std::min(top * 2, mmax)) * unit);
+  const long long CM = 715827882;  // largest cost with 3*cost < INT_MAX
+  t.costs.assign(nb, std::vector<int>(nc));
+  int cmode = g.range(0, 3);
+  for (int b = 0; b < nb; ++b)
+    for (int c = 0; c < nc; ++c) {
+      long long v;
+      if (!signedC) v = cmode == 0 ? g.range(0, 20) : (cmode == 1 ? g.range(0, CM) : (g.chance(1, 2) ? CM - g.range(0, 3) : g.range(0, 3)));
+      else v = cmode == 0 ? g.range(-CM, CM) : (g.chance(1, 2) ? CM - g.range(0, 1000) : -CM + g.range(0, 1000));
+      t.costs[b][c] = (int)v;
+    }
+  return t;
+}
+static std::string giOps(const GiInst &t) {
+  std::ostringstream os;
+  os << "gi " << t.caps.size() << " " << t.dems.size();
+  for (auto v : t.caps) os << " " << v;
+  for (auto v : t.dems) os << " " << v;
+  for (auto &r : t.costs) for (int v : r) os << " " << v;
+  os << "\n";
+  return os.str();
+}
+static void giImpl(const GiInst &t, std::ostream &os) {
+  try {
+    TransportationProblem solver(t.caps, t.dems, t.costs);
+    solver.increaseCapacity();
+    solver.solve();
+    std::vector<int> a = solver.toAssignment();
+    os << "gi";
+    for (int k : a) os << " " << k;
+    os << "\n";
+  } catch (const std::runtime_error &) {
+    os << "gi throw:runtime_error\n";
+  }
+}
+static bool parseGi(std::istream &is, GiInst &t) {
+  size_t nb = 0, nc = 0;
+  if (!(is >> nb >> nc)) return false;
+  t.caps.resize(nb); t.dems.resize(nc);
+  for (auto &v : t.caps) is >> v;
+  for (auto &v : t.dems) is >> v;
+  t.costs.assign(nb, std::vector<int>(nc));
+  for (auto &r : t.costs) for (auto &v : r) is >> v;
+  return (bool)is;
+}
+
+// One DetailedPlacement session in its own child; the child appends "O <op line>" before executing each operation and
+// "A <answer>" after it to a scratch file (vh::isolated only hands the output over when the child survives), so the ops of a
+// session that dies are known up to and including the operation that killed it.
+static std::string detIsolated(const DetInst &t, int timeout, const std::string &scratch, std::string &opsS, std::string &implS, std::string &diag) {
+  unlink(scratch.c_str());
+  std::string output;
+  std::string fate = vh::isolated([&](std::ostream &) {
+    struct Tag : std::streambuf {
+      int fd; const char *tag; std::string cur;
+      Tag(int f, const char *t) : fd(f), tag(t) {}
+      void put(char c) {
+        if (c == '\n') {
+          std::string ln = tag + cur + "\n";
+          if (write(fd, ln.data(), ln.size()) < 0) {}
+          cur.clear();
+        } else cur += c;
+      }
+      int_type overflow(int_type c) override { if (c != traits_type::eof()) put((char)c); return c; }
+      std::streamsize xsputn(const char *p, std::streamsize n) override { for (std::streamsize k = 0; k < n; ++k) put(p[k]); return n; }
+    };
+    int fdq = open(scratch.c_str(), O_WRONLY | O_CREAT | O_APPEND, 0644);
+    Tag tb(fdq, "O "), ta(fdq, "A ");
+    std::ostream ops(&tb), impl(&ta);
+    detSession(t, &ops, &impl);
+    close(fdq);
+  }, output, timeout, &diag);
+  opsS.clear(); implS.clear();
+  {
+    std::ifstream is(scratch);
+    std::string ln;
+    while (std::getline(is, ln)) {
+      if (ln.rfind("O ", 0) == 0) opsS += ln.substr(2) + "\n";
+      else if (ln.rfind("A ", 0) == 0) implS += ln.substr(2) + "\n";
+    }
+  }
+  unlink(scratch.c_str());
+  return fate;
+}
+// replays the recorded op lines of a DetailedPlacement session (dnew / drow / dcell / dinit / d<op> ...) on the real code
+static void detReplayOps(const std::string &text, std::ostream &os) {
+  std::istringstream is(text);
+  std::string ln;
+  std::vector<Row> rows;
+  std::vector<int> w, x, y;
+  std::vector<CellOrientation> o;
+  std::vector<CellRowPolarity> pol;
+  std::unique_ptr<DetailedPlacement> pl;
+  while (std::getline(is, ln)) {
+    std::istringstream ls(ln);
+    std::string op;
+    if (!(ls >> op)) continue;
+    if (op == "drow") { int a, b, c, d, e; ls >> a >> b >> c >> d >> e; rows.emplace_back(a, b, c, d, (CellOrientation)e); }
+    else if (op == "dcell") { int a, b, c, d, e; ls >> a >> b >> c >> d >> e; w.push_back(a); x.push_back(b); y.push_back(c); o.push_back((CellOrientation)d); pol.push_back((CellRowPolarity)e); }
+    else if (op == "dinit") {
+      std::vector<int> idx(w.size());
+      for (size_t i = 0; i < idx.size(); ++i) idx[i] = i;
+      pl.reset(new DetailedPlacement(rows, w, x, y, o, pol, idx));
+      os << "dinit ok\n";
+    } else if (pl) {
+      int a = 0, b = 0, c = 0;
+      ls >> a >> b >> c;
+      try {
+        if (op == "dcanswap") os << op << " " << pl->canSwap(a, b) << "\n";
+        else if (op == "dcaninsert") os << op << " " << pl->canInsert(a, b, c) << "\n";
+        else if (op == "dposswap") { auto q = pl->positionsOnSwap(a, b); os << op << " " << q.first.x << " " << q.second.x << "\n"; }
+        else if (op == "dposinsert") { auto q = pl->positionOnInsert(a, b, c); os << op << " " << q.x << "\n"; }
+        else if (op == "dswap") { pl->swap(a, b); os << op << " ok\n"; }
+        else if (op == "dinsert") { pl->insert(a, b, c); os << op << " ok\n"; }
+      } catch (const std::runtime_error &) { os << op << " throw:runtime_error\n"; break; }
+    }
+  }
+}
+
 // ------------------------------------------------------------------ worker
-struct Plan { long long nFlow, nDense, nM, nX, nS, nA, nT, nY, nI, nJ, nP, nQ, nU; int timeout; };
+struct Plan { long long nFlow, nDense, nM, nX, nS, nA, nT, nY, nI, nJ, nP, nQ, nU, nG, nH, nV, nW; int timeout; };
 static Plan planFor(const vh::Args &a) {
-  if (a.thorough()) return {12000, 20000, 60000, 3000, 3000, 20000, 40000, 3000, 40000, 3000, 40000, 3000, 100000, 300};
-  if (a.search()) return {2500, 4000, 20000, 600, 1500, 20000, 10000, 600, 10000, 600, 10000, 600, 20000, 120};
-  return {1500, 2500, 20000, 1200, 400, 6000, 10000, 1000, 10000, 1000, 10000, 1000, 20000, 120};
+  if (a.thorough()) return {12000, 20000, 60000, 3000, 3000, 20000, 40000, 3000, 40000, 3000, 40000, 3000, 100000, 40000, 6000, 60000, 6000, 300};
+  if (a.search()) return {2500, 4000, 20000, 600, 1500, 20000, 10000, 600, 10000, 600, 10000, 600, 20000, 6000, 800, 10000, 800, 120};
+  return {1500, 2500, 20000, 1200, 400, 6000, 10000, 1000, 10000, 1000, 10000, 1000, 20000, 6000, 1200, 10000, 1200, 120};
 }
 static const int MBATCH = 500;
 
 static bool parseFlowCase(const std::string &in, Case &cs);
 static std::vector<std::string> corpusFiles(const std::string &dir, bool withSlow);
 
-// development aid: C07_STAGES=<letters of C F D M X S A> restricts the run to these stages
+// development aid: C07_STAGES=<letters of C F D M X S A T Y I J P Q U G H> restricts the run to these stages
 static bool stageOn(char c) {
   const char *e = getenv("C07_STAGES");
   return !e || !*e || strchr(e, c);
@@ -1651,6 +1931,18 @@ static void worker(const vh::Args &a, int w, int J, const Plan &pl, const std::s
     if (fate != "ok") {
       r.what = "[detplace_unit] DetailedPlacement faulted (" + fate + ") on an in-domain session at 2^22 magnitude: " + summarize(diag);
       r.input = "detplace batch " + std::to_string(bt);
+      // name the session: each one again in its own child, with the ops recorded up to the operation that dies
+      for (size_t j = 0; j < v.size(); ++j) {
+        std::string o2, i2, d2;
+        std::string f2 = detIsolated(v[j], pl.timeout, path + ".p", o2, i2, d2);
+        if (f2 != "ok") {
+          r.what = "[detplace_unit] DetailedPlacement session p" + std::to_string(bt * MBATCH + (long long)j) +
+                   " (legal placement within 2^22, then the recorded queries / moves; the last operation listed is the one that "
+                   "does not return) ended with " + f2 + ": " + summarize(d2);
+          r.input = o2;
+          break;
+        }
+      }
     }
     writeRec(f, r);
   }
@@ -1661,42 +1953,9 @@ static void worker(const vh::Args &a, int w, int J, const Plan &pl, const std::s
     int mag = g.range(23, 31);
     DetInst t = genDet(g, (1ll << mag) - 1);
     Rec r; r.k = k; r.stage = "Q"; r.id = "q" + std::to_string(k);
-    std::string output, diag;
-    // the child appends "O <op line>" before executing each operation and "A <answer>" after it to a scratch file
-    // (vh::isolated only hands the output over when the child survives)
-    std::string scratch = path + ".q";
-    unlink(scratch.c_str());
-    std::string fate = vh::isolated([&](std::ostream &) {
-      struct Tag : std::streambuf {
-        int fd; const char *tag; std::string cur;
-        Tag(int f, const char *t) : fd(f), tag(t) {}
-        void put(char c) {
-          if (c == '\n') {
-            std::string ln = tag + cur + "\n";
-            if (write(fd, ln.data(), ln.size()) < 0) {}
-            cur.clear();
-          } else cur += c;
-        }
-        int_type overflow(int_type c) override { if (c != traits_type::eof()) put((char)c); return c; }
-        std::streamsize xsputn(const char *p, std::streamsize n) override { for (std::streamsize k = 0; k < n; ++k) put(p[k]); return n; }
-      };
-      int fdq = open(scratch.c_str(), O_WRONLY | O_CREAT | O_APPEND, 0644);
-      Tag tb(fdq, "O "), ta(fdq, "A ");
-      std::ostream ops(&tb), impl(&ta);
-      detSession(t, &ops, &impl);
-      close(fdq);
-    }, output, pl.timeout, &diag);
+    std::string diag, opsS, implS;
+    std::string fate = detIsolated(t, pl.timeout, path + ".q", opsS, implS, diag);
     r.fate = fate;
-    std::string opsS, implS;
-    {
-      std::ifstream is(scratch);
-      std::string ln;
-      while (std::getline(is, ln)) {
-        if (ln.rfind("O ", 0) == 0) opsS += ln.substr(2) + "\n";
-        else if (ln.rfind("A ", 0) == 0) implS += ln.substr(2) + "\n";
-      }
-    }
-    unlink(scratch.c_str());
     r.ops = "xcase q" + std::to_string(k) + "\n" + opsS + "endx\n";
     r.impl = "xcase q" + std::to_string(k) + "\n" + (fate == "ok" ? implS : std::string("fault\n"));
     r.counts = std::string("detplace_wild_") + (fate == "ok" ? "no_fault" : "fault_" + fate);
@@ -1734,6 +1993,131 @@ static void worker(const vh::Args &a, int w, int J, const Plan &pl, const std::s
       }
       r.impl = "";
       r.ops = "";
+    }
+    writeRec(f, r);
+  }
+  // stage V: batches of in-domain scaled 1-D transportations (balanceDemand + assign); a batch that dies is re-run one
+  // instance per child to name it
+  long long nVB = (pl.nV + MBATCH - 1) / MBATCH;
+  for (long long bt = w; bt < nVB && stageOn('V'); bt += J) {
+    Rec r; r.k = bt; r.stage = "V"; r.id = "v" + std::to_string(bt);
+    std::ostringstream ops;
+    std::vector<c07t1d::Inst> v;
+    for (long long i = bt * MBATCH; i < std::min<long long>(pl.nV, (bt + 1) * MBATCH); ++i) {
+      vh::Rng g = vh::Rng::forCase(a.seed ^ 0x5656, i);
+      v.push_back(c07t1d::gen(g, false));
+      ops << "case v" << i << "\n" << c07t1d::ops(v.back());
+    }
+    std::string output, diag;
+    std::string fate = vh::isolated([&](std::ostream &os) {
+      for (size_t j = 0; j < v.size(); ++j) { os << "case v" << (bt * MBATCH + (long long)j) << "\n"; c07t1d::impl(v[j], os); }
+    }, output, pl.timeout, &diag);
+    r.fate = fate; r.ops = ops.str(); r.impl = output;
+    r.counts = "transp1d_scaled_instances=" + std::to_string(v.size());
+    if (fate != "ok") {
+      r.what = "[transp1d_unit] Transportation1d balanceDemand + assign faulted (" + fate + ") on an in-domain scaled instance: " + summarize(diag);
+      r.input = r.ops;
+      for (size_t j = 0; j < v.size(); ++j) {
+        std::string o2, d2;
+        std::string f2 = vh::isolated([&](std::ostream &os) { c07t1d::impl(v[j], os); }, o2, pl.timeout, &d2);
+        if (f2 != "ok") {
+          r.what = "[transp1d_unit] Transportation1d(u, v, s, d).balanceDemand(); assign() on positions scaled as improveXTransport "
+                   "scales them (|u|, |v| < 2^56) ended with " + f2 + " instead of returning: " + summarize(d2);
+          r.input = c07t1d::ops(v[j]);
+          break;
+        }
+      }
+      r.impl = "";
+      r.ops = "";
+    }
+    writeRec(f, r);
+  }
+  // stage W: one child per beyond-domain 1-D instance
+  for (long long k = w; k < pl.nW && stageOn('W'); k += J) {
+    vh::Rng g = vh::Rng::forCase(a.seed ^ 0x5757, k);
+    c07t1d::Inst t = c07t1d::gen(g, true);
+    Rec r; r.k = k; r.stage = "W"; r.id = "w" + std::to_string(k);
+    r.ops = "xcase w" + std::to_string(k) + "\n" + c07t1d::ops(t) + "endx\n";
+    std::string output, diag;
+    std::string fate = vh::isolated([&](std::ostream &os) { c07t1d::impl(t, os); }, output, pl.timeout, &diag);
+    r.fate = fate;
+    r.impl = "xcase w" + std::to_string(k) + "\n" + (fate == "ok" ? output : std::string("fault\n"));
+    r.counts = std::string("transp1d_wild_") + (fate == "ok" ? "no_fault" : "fault_" + fate);
+    writeRec(f, r);
+  }
+  // stage G: batches of in-domain reoptimize transportations; the child writes both streams (the bin centres and the float
+  // costs come from the real code); a batch that dies is re-run one instance per child to name it
+  const int GBATCH = 100;
+  long long nGB = (pl.nG + GBATCH - 1) / GBATCH;
+  for (long long bt = w; bt < nGB && stageOn('G'); bt += J) {
+    Rec r; r.k = bt; r.stage = "G"; r.id = "g" + std::to_string(bt);
+    std::vector<GtInst> v;
+    for (long long i = bt * GBATCH; i < std::min<long long>(pl.nG, (bt + 1) * GBATCH); ++i) {
+      vh::Rng g = vh::Rng::forCase(a.seed ^ 0x4747, i);
+      v.push_back(genGt(g));
+    }
+    std::string output, diag;
+    std::string fate = vh::isolated([&](std::ostream &os) {
+      std::ostringstream ops, impl;
+      for (size_t j = 0; j < v.size(); ++j) {
+        ops << "case g" << (bt * GBATCH + (long long)j) << "\n";
+        impl << "case g" << (bt * GBATCH + (long long)j) << "\n";
+        gtSession(v[j], ops, impl);
+      }
+      os << ops.str() << "=====\n" << impl.str();
+    }, output, pl.timeout, &diag);
+    r.fate = fate;
+    size_t cut = output.find("=====\n");
+    if (fate == "ok" && cut != std::string::npos) { r.ops = output.substr(0, cut); r.impl = output.substr(cut + 6); }
+    long long nModels[6] = {0, 0, 0, 0, 0, 0}, nPen = 0, nInc = 0, nBig = 0;
+    for (auto &t : v) {
+      nModels[t.model]++;
+      if (t.qf > 0) nPen++;
+      long long td = 0, tc = 0;
+      for (auto x : t.dems) td += x;
+      for (auto x : t.caps) tc += x;
+      if (td > tc) nInc++;
+      for (size_t c = 0; c < t.cx.size(); ++c) if (std::fabs(t.cx[c]) > (1 << 24) || std::fabs(t.cy[c]) > (1 << 24)) { nBig++; break; }
+    }
+    r.counts = "transp_domain_instances=" + std::to_string(v.size()) + ",transp_quadratic_penalty=" + std::to_string(nPen) +
+               ",transp_increase_capacity=" + std::to_string(nInc) + ",transp_target_above_2^24=" + std::to_string(nBig);
+    static const char *mn[] = {"L1", "L2", "LInf", "L1Squared", "L2Squared", "LInfSquared"};
+    for (int m = 0; m < 6; ++m) r.counts += std::string(",transp_model_") + mn[m] + "=" + std::to_string(nModels[m]);
+    if (fate != "ok") {
+      r.what = "[transp_unit] reoptimize's transportation faulted (" + fate + ") on an in-domain instance: " + summarize(diag);
+      r.input = "transp batch " + std::to_string(bt);
+      for (size_t j = 0; j < v.size(); ++j) {
+        std::string o2, d2;
+        std::string f2 = vh::isolated([&](std::ostream &os) { std::ostringstream ops; gtSession(v[j], ops, os); }, o2, pl.timeout, &d2);
+        if (f2 != "ok") {
+          r.what = "[transp_unit] TransportationProblem(capacities, demands, float costs of DensityLegalizer::allDistances)"
+                   ".increaseCapacity().solve().toAssignment() on an in-domain instance (bins within 2^22, targets within 2^29) "
+                   "ended with " + f2 + ": " + summarize(d2);
+          r.input = gtText(v[j]);
+          break;
+        }
+      }
+      r.impl = "";
+      r.ops = "";
+    }
+    writeRec(f, r);
+  }
+  // stage H: one child per beyond-domain instance (int-cost constructor)
+  for (long long k = w; k < pl.nH && stageOn('H'); k += J) {
+    vh::Rng g = vh::Rng::forCase(a.seed ^ 0x4848, k);
+    GiInst t = genGi(g);
+    Rec r; r.k = k; r.stage = "H"; r.id = "h" + std::to_string(k);
+    r.ops = "xcase h" + std::to_string(k) + "\n" + giOps(t) + "endx\n";
+    std::string output, diag;
+    std::string fate = vh::isolated([&](std::ostream &os) { giImpl(t, os); }, output, pl.timeout, &diag);
+    r.fate = fate;
+    r.impl = "xcase h" + std::to_string(k) + "\n" + (fate == "ok" ? output : std::string("fault\n"));
+    r.counts = std::string("transp_wild_family") + std::to_string(t.family) + "_" + (fate == "ok" ? "no_fault" : "fault_" + fate);
+    if (fate != "ok" && fate != "abort" && fate != "sanitizer") {
+      // a timeout or a crash that is not a sanitizer report is not something the checked model predicts
+      r.stage = "G";
+      r.what = "[transp_unit] TransportationProblem(int costs).increaseCapacity().solve() ended with " + fate + ": " + summarize(diag);
+      r.input = giOps(t);
     }
     writeRec(f, r);
   }
@@ -1862,6 +2246,31 @@ static int replay(const vh::Args &a, vh::Out &out) {
     std::string output, diag;
     std::string fate = vh::isolated([&](std::ostream &os) { t1dImpl(t, os); }, output, 60, &diag);
     if (fate != "ok") out.fail("replay", "Transportation1d::assign ended with " + fate + ": " + summarize(diag), in);
+  } else if (first == "t1dc") {
+    size_t n = 0, m = 0;
+    is >> n >> m;
+    c07t1d::Inst t;
+    auto rd = [&](std::vector<long long> &v, size_t k) { for (size_t i = 0; i < k; ++i) { long long x = 0; is >> x; v.push_back(x); } };
+    rd(t.u, n); rd(t.v, m); rd(t.s, n); rd(t.d, m);
+    std::string output, diag;
+    std::string fate = vh::isolated([&](std::ostream &os) { c07t1d::impl(t, os); }, output, 60, &diag);
+    if (fate != "ok") out.fail("replay", "Transportation1d balanceDemand + assign ended with " + fate + ": " + summarize(diag), in);
+  } else if (first == "gtinst") {
+    GtInst t;
+    std::string output, diag;
+    if (!parseGt(is, t)) { out.notes.push_back("cannot parse replay"); out.finish(); return 2; }
+    std::string fate = vh::isolated([&](std::ostream &os) { std::ostringstream ops; gtSession(t, ops, os); }, output, 600, &diag);
+    if (fate != "ok") out.fail("replay", "reoptimize's transportation ended with " + fate + ": " + summarize(diag), in);
+  } else if (first == "gi") {
+    GiInst t;
+    std::string output, diag;
+    if (!parseGi(is, t)) { out.notes.push_back("cannot parse replay"); out.finish(); return 2; }
+    std::string fate = vh::isolated([&](std::ostream &os) { giImpl(t, os); }, output, 600, &diag);
+    if (fate != "ok") out.fail("replay", "TransportationProblem(int costs) ended with " + fate + ": " + summarize(diag), in);
+  } else if (first == "dnew") {
+    std::string output, diag;
+    std::string fate = vh::isolated([&](std::ostream &os) { detReplayOps(in, os); }, output, 600, &diag);
+    if (fate != "ok") out.fail("replay", "DetailedPlacement session ended with " + fate + ": " + summarize(diag), in);
   } else if (first == "abacus") {
     Aba ab;
     std::string op;
@@ -1912,7 +2321,7 @@ int main(int argc, char **argv) {
     for (auto &r : readRecs(p)) recs.push_back(r);
     unlink(p.c_str());
   }
-  static const std::string order = "CFMXSATYIJPQU";
+  static const std::string order = "CFMXSATYIJPQUVWGH";
   std::stable_sort(recs.begin(), recs.end(), [](const Rec &x, const Rec &y) {
     size_t sx = order.find(x.stage), sy = order.find(y.stage);
     return sx != sy ? sx < sy : x.k < y.k;
@@ -1928,7 +2337,7 @@ int main(int argc, char **argv) {
       "(exceptions are caught and are allowed); non-trivial = at least one entry point returned normally (the case went "
       "through the algorithms rather than being rejected up front), distinct by canonical text of the case; "
       "unit cases (row legalizer / Tetris / IncrNetModel / DetailedPlacement streams, computeSubdivisions, Abacus cost "
-      "evaluation, 1-D transportation lines) at 2^22 magnitude are counted in the distribution";
+      "evaluation, 1-D transportation lines, reoptimize's general transportation) at 2^22 magnitude are counted in the distribution";
   std::map<std::string, int> perTag;
   for (auto &r : recs) {
     // counts: "a,b=3,c"
@@ -1941,14 +2350,14 @@ int main(int argc, char **argv) {
     }
     if (r.fate == "skipped") continue;
     if (r.stage == "F" || r.stage == "C") out.evaluations++;
-    else if (r.stage == "M" || r.stage == "A" || r.stage == "T" || r.stage == "I" || r.stage == "P" || r.stage == "U") { /* counted through the distribution */ }
+    else if (r.stage == "M" || r.stage == "A" || r.stage == "T" || r.stage == "I" || r.stage == "P" || r.stage == "U" || r.stage == "V" || r.stage == "G") { /* counted through the distribution */ }
     else out.evaluations++;
     if (r.nontrivialHash) out.nontrivial(r.nontrivialHash);
     if (!r.sample.empty() && (r.k % 97 == 0 || r.fate != "ok")) out.sample(r.sample);
     out.ops << r.ops;
     out.impl << r.impl;
     // a fault of stage X (beyond the domain) is not a property failure; it is compared with the model's prediction
-    if (r.stage != "X" && r.stage != "Y" && r.stage != "J" && r.stage != "Q" && r.fate != "ok") {
+    if (r.stage != "X" && r.stage != "Y" && r.stage != "J" && r.stage != "Q" && r.stage != "H" && r.stage != "W" && r.fate != "ok") {
       // keep every kind of failure visible below the 200-line cap of oracle.txt
       size_t a = r.what.find('['), b = r.what.find(']');
       std::string tag = (a != std::string::npos && b != std::string::npos && b > a) ? r.what.substr(a, b - a + 1) : "[untagged]";
@@ -1968,7 +2377,7 @@ int main(int argc, char **argv) {
     }
     out.notes.push_back(note);
   }
-  out.evaluations += out.dist["rowleg_domain_instances"] + out.dist["abacus_eval_instances"] + out.dist["tetris_domain_instances"] + out.dist["incrnet_domain_instances"] + out.dist["detplace_domain_sessions"] + out.dist["transp1d_instances"];
+  out.evaluations += out.dist["rowleg_domain_instances"] + out.dist["abacus_eval_instances"] + out.dist["tetris_domain_instances"] + out.dist["incrnet_domain_instances"] + out.dist["detplace_domain_sessions"] + out.dist["transp1d_instances"] + out.dist["transp1d_scaled_instances"] + out.dist["transp_domain_instances"];
   if (workerDied) out.notes.push_back("a worker process died: results are incomplete");
   out.finish();
   return workerDied ? 4 : 0;
